@@ -189,6 +189,12 @@ func (d *Decoder) DecodeLength() (uint64, error) {
 	if err != nil {
 		return 0, err
 	}
+	// Every element of a length-prefixed sequence or dictionary occupies at least one byte of
+	// the input, so a declared length beyond the remaining input can never be satisfied. Reject
+	// it before it reaches make().
+	if length > uint64(d.buf.Len()) {
+		return 0, fmt.Errorf("declared length %d exceeds the remaining %d bytes of input", length, d.buf.Len())
+	}
 	cLog(Yellow, "Slice Length: %v", length)
 	return length, nil
 }
